@@ -83,6 +83,55 @@ def fq_sqrt(a):
     return s if s * s % Q == a else None
 
 
+_CBRT = {}
+
+
+def fq_cbrt(a):
+    """a cube root of a in Fq, or None if a is not a cubic residue (q = 1 mod 9: Adleman-Manders-Miller with a base-3 discrete log in the
+    3-Sylow subgroup).  Verified by cubing before returning."""
+    a %= Q
+    if a == 0:
+        return 0
+    if pow(a, (Q - 1) // 3, Q) != 1:
+        return None
+    if not _CBRT:
+        s3, t = 0, Q - 1
+        while t % 3 == 0:
+            s3, t = s3 + 1, t // 3
+        g = 2
+        while pow(g, (Q - 1) // 3, Q) == 1:
+            g += 1
+        _CBRT.update(s=s3, t=t, c=pow(g, t, Q), e=pow(3, -1, t))
+    s3, t, c, e = _CBRT['s'], _CBRT['t'], _CBRT['c'], _CBRT['e']
+    x = pow(a, e, Q)
+    b = pow(x, 3, Q) * pow(a, -1, Q) % Q          # in the 3-Sylow subgroup (order 3^s3), and a cube there
+    # discrete log j of b in base c, digit by digit in base 3
+    j, cur = 0, b
+    for i in range(s3):
+        d = pow(cur, 3 ** (s3 - 1 - i), Q)
+        w = pow(c, 3 ** (s3 - 1), Q)
+        digit = 0 if d == 1 else (1 if d == w else 2)
+        j += digit * 3 ** i
+        cur = cur * pow(c, -digit * 3 ** i, Q) % Q
+    if j % 3:
+        return None
+    y = pow(c, -(j // 3), Q)
+    r = x * y % Q
+    return r if pow(r, 3, Q) == a else None
+
+
+def sort_greater(which, y):
+    """does the library call y the GREATER of the two roots y, -y?  Its sort rule compares the internal Montgomery forms (known finding C02:
+    Fq::compare does not order by value - changing that would be a wire-format change), for Fq2 the u-coefficient first, then the other"""
+    def m(v):
+        return v % Q * RQ % Q
+    if which == 1:
+        return m(y) > m(-y)
+    if y[1] % Q:
+        return m(y[1]) > m(-y[1])
+    return m(y[0]) > m(-y[0])
+
+
 def fp_legendre(a, p):
     a %= p
     if a == 0:
@@ -400,6 +449,54 @@ def f6_inv(a):
     n = f2_add(f2_mul(c0, t0), f2_mul(XI, f2_add(f2_mul(c2, t1), f2_mul(c1, t2))))
     ni = f2_inv(n)
     return (f2_mul(t0, ni), f2_mul(t1, ni), f2_mul(t2, ni))
+
+
+def f6_pow(a, e):
+    r = F6_ONE
+    for b in bin(e)[2:]:
+        r = f6_mul(r, r)
+        if b == '1':
+            r = f6_mul(r, a)
+    return r
+
+
+_F6_TS = {}
+
+
+def f6_sqrt(a):
+    """a square root in Fq6 or None (Tonelli-Shanks; q^6 - 1 = 2^3 * odd).  Verified by squaring before returning."""
+    if f6_is_zero(a):
+        return F6_ZERO
+    n = Q ** 6 - 1
+    s, t = 0, n
+    while t % 2 == 0:
+        s, t = s + 1, t // 2
+    if 'c' not in _F6_TS:
+        z = ((1, 1), (1, 0), (0, 0))
+        k = 1
+        while f6_pow(z, n // 2) == F6_ONE:
+            k += 1
+            z = ((k, 1), (1, k), (0, 1))
+        _F6_TS['c'] = f6_pow(z, t)
+    c = _F6_TS['c']
+    x = f6_pow(a, (t + 1) // 2)
+    b = f6_pow(a, t)
+    m = s
+    while b != F6_ONE:
+        i, bb = 0, b
+        while bb != F6_ONE:
+            bb = f6_mul(bb, bb)
+            i += 1
+            if i == m:
+                return None
+        g = c
+        for _ in range(m - i - 1):
+            g = f6_mul(g, g)
+        x = f6_mul(x, g)
+        c = f6_mul(g, g)
+        b = f6_mul(b, c)
+        m = i
+    return x if f6_mul(x, x) == tuple(a) else None
 
 
 def f12_inv(a):
